@@ -709,8 +709,10 @@ fn forged(ctx: &mut Ctx, prop: &str, per_degree: usize) {
 // ------------------------------------------------------------------------------------------------
 
 fn batch_verdict(ctx: &mut Ctx, rng: &mut Rng, id: &str, c: &Case, cs: &[CommS], qs: &QuerySet<Fr>, ev: &Evaluations<Fr, Fr>, ps: &[ProofS], must_refuse: bool, what: &str) -> Outcome3 {
-    let ind = individual_checks(&c.vk, cs, qs, ev, ps);
-    let out = batch_check_scalar(ctx, rng, id, &vks(c), &c.vk, cs, qs, ev, ps);
+    let comms = comms_from(cs);
+    let proofs: Vec<_> = ps.iter().map(|p| p.to_proof()).collect();
+    let ind = individual_checks_conv(&c.vk, &comms, qs, ev, &proofs);
+    let out = batch_check_conv(ctx, rng, id, &vks(c), &c.vk, cs, &comms, qs, ev, ps, &proofs);
     if (out == Outcome3::Accept) != (ind == Outcome3::Accept) {
         ctx.rep.expect_fail(id, &format!("ipa/batch-differs-from-individual/{}", what), &format!("batch_check: {:?}, conjunction of the individual checks: {:?}", out, ind), c.replay(id, ctx.seed, what));
     }
